@@ -115,10 +115,8 @@ CASES = [
             }
             fast.unwrap_or_else(|| HybridProtection::fallback(node, storage))''')]),
     dict(name='m-wait-for-writers-spin', kind='mutant', props=['C09', 'C08'], expect=['C09'],
-         edits=[(LI, '''            if self.active_writers.load(Relaxed) == 0 {
-                let _ = self''', '''            while self.active_writers.load(Relaxed) != 0 {}
-            if self.active_writers.load(Relaxed) == 0 {
-                let _ = self''')]),
+         edits=[(LI, '''            let verdict = if self.active_writers.load(Relaxed) == 0 {''', '''            while self.active_writers.load(Relaxed) != 0 {}
+            let verdict = if self.active_writers.load(Relaxed) == 0 {''')]),
     dict(name='m-mutex-around-list', kind='mutant', props=['C09', 'C08'], expect=['C09'],
          edits=[(LI, '''        let mut current = unsafe { LIST_HEAD.load(SeqCst).as_ref() };''', '''        static LOCK: std::sync::Mutex<()> = std::sync::Mutex::new(());
         let _g = LOCK.lock();
@@ -144,7 +142,7 @@ CASES = [
     dict(name='m-release-straight-to-unused', kind='mutant', props=['C11'], expect=['C11'],
          edits=[(LI, 'assert_eq!(NODE_USED, self.in_use.swap(NODE_COOLDOWN, Release));', 'assert_eq!(NODE_USED, self.in_use.swap(NODE_UNUSED, Release));')]),
     dict(name='m-cooldown-ignores-writers', kind='mutant', props=['C11'], expect=['C11'],
-         edits=[(LI, 'if self.active_writers.load(Relaxed) == 0 {', 'if self.active_writers.load(Relaxed) != usize::MAX {')]),
+         edits=[(LI, 'let verdict = if self.active_writers.load(Relaxed) == 0 {', 'let verdict = if self.active_writers.load(Relaxed) != usize::MAX {')]),
     dict(name='m-always-allocate', kind='mutant', props=['C11'], expect=['C11'],
          edits=[(LI, '''        // Try to find an unused one in the chain and reuse it.
         Self::traverse(|node| {''', '''        // Try to find an unused one in the chain and reuse it.
@@ -250,7 +248,9 @@ impl<T: RefCnt, S: Strategy<T>> Deref for Guard<T, S> {''')]),
                 (M, 'Release, Relaxed)', 'SeqCst, SeqCst)'),
                 (LI, 'self.0.active_writers.fetch_sub(1, Release);', 'self.0.active_writers.fetch_sub(1, SeqCst);'),
                 (LI, 'self.active_writers.fetch_add(1, Acquire);', 'self.active_writers.fetch_add(1, SeqCst);'),
-                (LI, 'if self.in_use.load(Acquire) == NODE_COOLDOWN {', 'if self.in_use.load(SeqCst) == NODE_COOLDOWN {'),
+                (LI, 'if self.in_use.load(Relaxed) == NODE_COOLDOWN', 'if self.in_use.load(SeqCst) == NODE_COOLDOWN'),
+                (LI, '.compare_exchange(NODE_COOLDOWN, NODE_CHECKING, Acquire, Relaxed)', '.compare_exchange(NODE_COOLDOWN, NODE_CHECKING, SeqCst, SeqCst)'),
+                (LI, 'self.in_use.store(verdict, Release);', 'self.in_use.store(verdict, SeqCst);'),
                 (LI, 'self.in_use.swap(NODE_COOLDOWN, Release)', 'self.in_use.swap(NODE_COOLDOWN, SeqCst)'),
                 (CA, 'self.arc_swap.ptr.load(Ordering::Relaxed)', 'self.arc_swap.ptr.load(Ordering::SeqCst)')]),
     dict(name='b-rename-locals', kind='benign', props=ALL, expect=[],
@@ -406,5 +406,44 @@ CASES += [
 }
 
 impl<T: RefCnt> Borrow<T> for HybridProtection<T> {''')]),
+]
+
+CASES += [
+    # revert of fix: 6fe7eaf (exclusive CHECKING state in check_cooldown): the check-then-exchange shape
+    dict(name='m-cooldown-check-then-exchange', kind='mutant', props=['C11', 'C12', 'C01'], expect=['C11', 'C12', 'C01'],
+         edits=[(LI, '''        if self.in_use.load(Relaxed) == NODE_COOLDOWN
+            && self
+                .in_use
+                .compare_exchange(NODE_COOLDOWN, NODE_CHECKING, Acquire, Relaxed)
+                .is_ok()
+        {''', '''        if self.in_use.load(Acquire) == NODE_COOLDOWN {'''),
+                (LI, '''            let verdict = if self.active_writers.load(Relaxed) == 0 {
+                NODE_UNUSED
+            } else {
+                NODE_COOLDOWN
+            };''', '''            if self.active_writers.load(Relaxed) == 0 {
+                let _ = self
+                    .in_use
+                    .compare_exchange(NODE_COOLDOWN, NODE_UNUSED, Relaxed, Relaxed);
+            }'''),
+                (LI, '''            self.in_use.store(verdict, Release);''', ''''''),
+                (LI, '''const NODE_CHECKING: usize = 3;''', '''#[allow(dead_code)]
+const NODE_CHECKING: usize = 3;''')]),
+    # the seeded C11-w3m1 / C11-m1 ideas ported to the repaired shape: the writers are looked at BEFORE the exclusive state is taken
+    dict(name='m-cooldown-verdict-before-exclusive', kind='mutant', props=['C11', 'C12'], expect=['C11', 'C12'],
+         edits=[(LI, '''        if self.in_use.load(Relaxed) == NODE_COOLDOWN
+            && self''', '''        let quiet = self.active_writers.load(Relaxed) == 0;
+        if self.in_use.load(Relaxed) == NODE_COOLDOWN
+            && self'''),
+                (LI, '''            let verdict = if self.active_writers.load(Relaxed) == 0 {''', '''            let verdict = if quiet {''')]),
+    # ... and the verdict stored Relaxed (weak-memory only: the claimer no longer synchronises with the previous owner)
+    dict(name='m-cooldown-verdict-relaxed', kind='mutant', props=['C11', 'C07'], expect=['C11', 'C07'],
+         edits=[(LI, 'self.in_use.store(verdict, Release);', 'self.in_use.store(verdict, Relaxed);')]),
+    # benign: no fast pre-check load before the exclusive exchange
+    dict(name='b-cooldown-no-precheck', kind='benign', props=ALL, expect=[],
+         edits=[(LI, '''        if self.in_use.load(Relaxed) == NODE_COOLDOWN
+            && self
+                .in_use''', '''        if self
+                .in_use''')]),
 ]
 
